@@ -162,7 +162,8 @@ class FixedArm(Arm):
     budget = {"quick": 400, "thorough": 6000}
     min_per_shard = 20
     required_labels = ("shape:1d", "shape:col1", "shape:cols", "wildcard", "broadcast",
-                       "input_plus_edge_on_one_variable", "heun", "euler", "depth=1", "addressed>=10:1d", "addressed>=10:cols")
+                       "input_plus_edge_on_one_variable", "heun", "euler", "depth=1", "addressed>=10:1d", "addressed>=10:cols",
+                       "backend:jax", "backend:torch", "sampling>step")
 
     def strategy(self, ctx):
         @st.composite
@@ -171,13 +172,17 @@ class FixedArm(Arm):
             spec = base_case(draw, many=many)
             rm = RefModel(spec)
             spec, rm = ensure_input(spec, rm)
-            steps = draw(st.integers(8, 40))
+            # sampling step = m integration steps; one case in eight runs on the jax / torch implementation of the solver
+            m = draw(st.sampled_from([1, 1, 1, 2, 5]))
+            steps = m * draw(st.integers(max(2, 8 // m), 40 // m))
             vec = True if many else draw(st.booleans())
             extra = draw(st.integers(0, 3))
             inputs = draw(inputs_strategy(spec, rm, steps + extra, vec))
+            backend = "default" if many else draw(st.sampled_from(["default"] * 6 + ["jax", "torch"]))
+            solver = draw(st.sampled_from(["euler"] if backend == "torch" else ["euler", "heun"]))
             return {"spec": spec, "inputs": inputs,
-                    "cfg": {"solver": draw(st.sampled_from(["euler", "heun"])), "dt": draw(st.sampled_from([0.01, 0.05])),
-                            "steps": steps, "vectorize": vec}}
+                    "cfg": {"solver": solver, "dt": draw(st.sampled_from([0.01, 0.05])),
+                            "steps": steps, "vectorize": vec, "m": m, "backend": backend}}
         from ..finding_predicates import repair_case
         return case().map(lambda c: repair_case(c, ctx))
 
@@ -194,16 +199,19 @@ class FixedArm(Arm):
         rm = RefModel(spec)
         sp = rm.state_paths
         steps, dt, solver, vec = cfg["steps"], cfg["dt"], cfg["solver"], cfg["vectorize"]
-        res.labels = common_labels(case, rm) + [solver, "vec" if vec else "novec"] + \
+        m, backend = int(cfg.get("m", 1)), cfg.get("backend", "default")
+        rkw = {"backend": backend, "dts": m * dt} if (m > 1 or backend != "default") else {}
+        res.labels = common_labels(case, rm) + [solver, "vec" if vec else "novec", f"backend:{backend}"] + \
+            (["sampling>step"] if m > 1 else []) + \
             ["repaired:" + r for r in case.get("_repaired", [])]
         outputs = {f"v{i}": p for i, p in enumerate(sp)}
         # baseline without inputs
-        ref0 = rm.simulate(steps, dt, solver=solver)[:steps]
+        ref0 = rm.simulate(steps, dt, solver=solver)[:steps:m]
         if not np.all(np.isfinite(ref0)) or np.max(np.abs(ref0)) > 1e6:
             res.rejected = "reference not benign"
             return res
         try:
-            df0 = run_circuit(spec, steps * dt, dt, dict(outputs), solver=solver, vectorize=vec)
+            df0 = run_circuit(spec, steps * dt, dt, dict(outputs), solver=solver, vectorize=vec, **rkw)
             a0 = np.column_stack([np.asarray(df0[f"v{i}"], dtype=float) for i in range(len(sp))])
         except HarnessError:
             raise
@@ -215,14 +223,14 @@ class FixedArm(Arm):
             res.rejected = "input-free baseline deviates from reference (C01/C04)"
             return res
         ext = expand_inputs(spec, rm, case["inputs"])
-        ref = rm.simulate(steps, dt, solver=solver, inputs=ext)[:steps]
+        ref = rm.simulate(steps, dt, solver=solver, inputs=ext)[:steps:m]
         if not np.all(np.isfinite(ref)) or np.max(np.abs(ref)) > 1e6:
             res.rejected = "reference not benign"
             return res
         res.nontrivial = bool(np.max(np.abs(ref - ref0)) > 1e-6)
         try:
             df = run_circuit(spec, steps * dt, dt, dict(outputs), solver=solver, vectorize=vec,
-                             inputs=pyrates_inputs(case["inputs"]))
+                             inputs=pyrates_inputs(case["inputs"]), **rkw)
             a = np.column_stack([np.asarray(df[f"v{i}"], dtype=float) for i in range(len(sp))])
         except HarnessError:
             raise
@@ -241,7 +249,7 @@ class FixedArm(Arm):
             hint = ""
             for sh in (-2, -1, 1, 2):
                 ext_s = {k: np.roll(v, sh) for k, v in ext.items()}
-                alt = rm.simulate(steps, dt, solver=solver, inputs=ext_s)[:steps]
+                alt = rm.simulate(steps, dt, solver=solver, inputs=ext_s)[:steps:m]
                 if np.max(np.abs(a[2:-2] - alt[2:-2])) <= 1e-8 * scale:
                     hint = f" (matches the reference with the input shifted by {sh} samples)"
             res.violate(f"wrong-trajectory:{solver}", f"{sp[j]} deviates from the reference recurrence from row {r} on: "
